@@ -98,8 +98,36 @@ where
     if c.gc_before {
         w.mref.with_manager_shared(|m| m.gc());
     }
-    let sig_zbdd_known = K::SEM == Sem::ZeroSup;
-    let _ = sig_zbdd_known;
+    // one model-count cache kept across both reorderings ("subsequent operations behave as on a
+    // freshly built diagram": level swaps recycle node slots, the cache must notice)
+    let mut count_cache: oxidd::util::SatCountCache<u64, std::collections::hash_map::RandomState> = Default::default();
+    count_cache.cache_all = true;
+    let mut count_all = |ctx: &mut Ctx, w: &World<K>, when: &str| {
+        for e in w.hs.iter() {
+            // the handle itself and the functions of its inner nodes down to depth 3 (the root of a
+            // surviving handle keeps its node id, so a stale entry would only be met below it)
+            let mut frontier: Vec<(K::F, u32)> = vec![(e.f.clone(), 0)];
+            while let Some((f, depth)) = frontier.pop() {
+                let want = interp_tt::<K>(&f).count_ones();
+                let got: u64 = f.sat_count(c.n, &mut count_cache);
+                ctx.eval();
+                if got != want {
+                    ctx.violation(
+                        &w.sig("set_var_order:sat_count-with-cache-kept-across-reordering"),
+                        w.witness(&format!("{when}: sub-function at depth {depth} of table {}: counted {got}, has {want} models", e.t)),
+                    );
+                    return;
+                }
+                if depth < 3 {
+                    if let Some((t, e)) = f.cofactors() {
+                        frontier.push((t, depth + 1));
+                        frontier.push((e, depth + 1));
+                    }
+                }
+            }
+        }
+    };
+    count_all(ctx, &w, "before set_var_order");
     w.trace.push(format!("set_var_order{}({:?})", if c.seq { "_seq" } else { "" }, c.req));
     w.mref.with_manager_exclusive(|m| {
         if c.seq {
@@ -162,6 +190,7 @@ where
     }
     // functions preserved, structure, ref counts, node counts minimal under the new order
     w.audit(ctx, "after set_var_order");
+    count_all(ctx, &w, "after set_var_order");
     // canonical: rebuilding any function yields the identical handle
     let k = w.hs.len();
     for i in 0..k {
@@ -195,6 +224,7 @@ where
         ctx.violation(&w.sig("set_var_order:second-reordering-order"), w.witness(&format!("wanted {:?} got {back:?}", c.src)));
     }
     w.audit(ctx, "after second set_var_order");
+    count_all(ctx, &w, "after second set_var_order");
     w.teardown(ctx);
     ctx.count("reorder_cases", 1);
 }
